@@ -113,6 +113,20 @@ pub fn make_program(rng: &mut Rng, family: Family, fuel: usize, unique_wd: bool)
     Ok((dag, typing))
 }
 
+/// Does the program hold two node objects with one identity root whose interiors are typed differently?
+/// (Known limitation, see known_findings.json: the encoder writes such twins as one node.)
+fn has_differently_typed_ihr_twins(p: &RedeemNode) -> bool {
+    use simplicity::dag::InternalSharing;
+    let mut by_ihr: std::collections::HashMap<[u8; 32], [u8; 32]> = std::collections::HashMap::new();
+    for x in p.post_order_iter::<InternalSharing>() {
+        let (i, a) = (x.node.ihr().to_byte_array(), x.node.amr().to_byte_array());
+        if *by_ihr.entry(i).or_insert(a) != a {
+            return true;
+        }
+    }
+    false
+}
+
 fn redeem_case(rng: &mut Rng, case: &mut Case, family: Family) -> Outcome {
     let fuel = rng.urange(2, if case.tier() == crate::runner::Tier::Quick { 18 } else { 40 });
     let (dag, _typing) = match make_program(rng, family, fuel, false) {
@@ -160,26 +174,18 @@ fn redeem_case(rng: &mut Rng, case: &mut Case, family: Family) -> Outcome {
     };
     let p2 = match guard(|| decode_redeem(&pb, &wb, family)) {
         Ok(Ok(r)) => r,
-        Ok(Err(e)) => return violated("redeem-own-encoding-rejected", format!("decoding the library's own encoding failed: {} ; program {} ; bytes {} / {}", e, dag.render(), bits::fmt_bytes(&pb), bits::fmt_bytes(&wb))),
+        Ok(Err(e)) => {
+            let sig = if has_differently_typed_ihr_twins(&p) { "redeem-own-encoding-rejected:equal-ihr-nodes-typed-differently" } else { "redeem-own-encoding-rejected" };
+            return violated(sig, format!("decoding the library's own encoding failed: {} ; program {} ; bytes {} / {}", e, dag.render(), bits::fmt_bytes(&pb), bits::fmt_bytes(&wb)));
+        }
         Err(pn) => return violated("panic:decode", format!("{} ; {}", pn, dag.render())),
     };
     if let Err((sig, d)) = compare_lists(&redeem_nodes(&p), &redeem_nodes(&p2), "redeem") {
         // A recognisable class: the program holds two node objects with one identity root (equal
         // structure, witnesses and outer types) whose interior types differ, because one of them
         // shares a child with another part of the program. The encoder writes such nodes once.
-        if sig == "redeem-amr" {
-            use simplicity::dag::InternalSharing;
-            let mut by_ihr: std::collections::HashMap<[u8; 32], [u8; 32]> = std::collections::HashMap::new();
-            let mut twins = false;
-            for x in p.as_ref().post_order_iter::<InternalSharing>() {
-                let (i, a) = (x.node.ihr().to_byte_array(), x.node.amr().to_byte_array());
-                if *by_ihr.entry(i).or_insert(a) != a {
-                    twins = true;
-                }
-            }
-            if twins {
-                return violated("redeem-amr:equal-ihr-nodes-typed-differently", format!("{} ; program {}", d, dag.render()));
-            }
+        if sig == "redeem-amr" && has_differently_typed_ihr_twins(&p) {
+            return violated("redeem-amr:equal-ihr-nodes-typed-differently", format!("{} ; program {}", d, dag.render()));
         }
         return violated(sig, format!("{} ; program {}", d, dag.render()));
     }
